@@ -15,59 +15,95 @@ def lexLt : List Int → List Int → Bool
 
 def fmtBin (b : Bin) : String := s!"{b.seg} {b.view} {b.ax} {b.tang} {b.tof}"
 
-def emptyGeom : Geom := { N := 2, R := 1, minSeg := 0, segs := [], viewMash := 1, tofMash := 0 }
+def fmtSegs (minSeg : Int) (segs : List Seg) : String :=
+  s!"segs {minSeg} : " ++ " ".intercalate (segs.map fun s => s!"{s.minRD},{s.maxRD},{s.numAx}")
 
-def stepLine (g : Option Geom) (line : String) : Option Geom × String :=
+/-- a freshly constructed `ProjDataInfoCylindrical` with the given segment table -/
+def construct (n r views tofm minSeg : Int) (segs : List Seg) : Option CylState × String :=
+  let g' : Geom := { N := n, R := r, minSeg := minSeg, segs := segs,
+                     viewMash := n.tdiv 2 |>.tdiv views, tofMash := tofm }
+  -- the constructor of ProjDataInfoCylindrical errors if an axial offset is not an integer
+  if segs.any fun s => (s.axOff r).isNone then (none, "err")
+  else (some (CylState.ofGeom g' 0 0), fmtSegs minSeg segs)
+
+def fmtTang (c : CylState) : String := s!"{c.minTang} {c.maxTang}"
+
+def stepLine (st : Option CylState) (line : String) : Option CylState × String :=
   let toks := (line.trimAscii.toString.splitOn " ").filter (· ≠ "")
   let I (s : String) : Int := s.toInt?.getD 0
   match toks with
   | ["cfg", n, r, span, md, views, tofm] =>
     match ctiSegments (I span) (I md) (I r) with
     | none => (none, "err")
-    | some (minSeg, segs) =>
-      let g' : Geom := { N := I n, R := I r, minSeg := minSeg, segs := segs,
-                         viewMash := (I n).tdiv 2 |>.tdiv (I views), tofMash := I tofm }
-      -- the constructor of ProjDataInfoCylindrical errors if an axial offset is not an integer
-      if segs.any fun s => (s.axOff (I r)).isNone then (none, "err")
-      else
-        (some g', s!"segs {minSeg} : " ++ " ".intercalate (segs.map fun s => s!"{s.minRD},{s.maxRD},{s.numAx}"))
+    | some (minSeg, segs) => construct (I n) (I r) (I views) (I tofm) minSeg segs
+  | ["cfgge", n, r, md, views, tofm] =>
+    match geSegments (I md) (I r) with
+    | none => (none, "err")
+    | some (minSeg, segs) => construct (I n) (I r) (I views) (I tofm) minSeg segs
   | _ =>
-    match g with
-    | none => (g, "err")
-    | some gg =>
+    match st with
+    | none => (st, "err")
+    | some cs =>
+      let gg := cs.geom
+      let upd (c : CylState) : Option CylState × String := (some c, "ok")
       match toks with
-      | ["vt", v, tp] => let (a, b) := viewTangToDet gg.N (I v) (I tp); (g, s!"{a} {b}")
+      | ["vt", v, tp] => let (a, b) := viewTangToDet gg.N (I v) (I tp); (st, s!"{a} {b}")
       | ["dv", d1, d2] =>
         let (v, tp, keep) := detToViewTang gg.N (I d1) (I d2)
-        (g, s!"{v.tdiv gg.viewMash} {tp} {if keep then 1 else 0}")
+        (st, s!"{v.tdiv gg.viewMash} {tp} {if keep then 1 else 0}")
       | ["rp2sa", r1, r2] =>
-        match gg.segAxOfRingPair (I r1) (I r2) with
-        | some (s, a) => (g, s!"{s} {a}")
-        | none => (g, "none")
+        match cs.segAxOfRingPair (I r1) (I r2) with
+        | .ok (some (s, a)) => (st, s!"{s} {a}")
+        | .ok none => (st, "none")
+        | .error _ => (st, "err")
       | ["sa2rps", s, a] =>
-        (g, " ".intercalate ((sortPairs (gg.ringPairsOf (I s) (I a))).map fun p => s!"{p.1},{p.2}"))
+        (st, " ".intercalate ((sortPairs (gg.ringPairsOf (I s) (I a))).map fun p => s!"{p.1},{p.2}"))
       | ["d2b", d1, r1, d2, r2, t] =>
         match gg.binForDetPair ⟨I d1, I r1, I d2, I r2, I t⟩ with
-        | some b => (g, fmtBin b)
-        | none => (g, "none")
+        | some b => (st, fmtBin b)
+        | none => (st, "none")
       | ["pairs", s, v, a, tp, t] =>
         let b : Bin := ⟨I s, I v, I a, I tp, I t⟩
         let l := (gg.allDetPairsForBin b).toArray.qsort (fun x y => lexLt (dpKey x) (dpKey y)) |>.toList
-        (g, s!"{gg.numDetPairsForBin b} | " ++ " ".intercalate (l.map fun p => s!"{p.d1},{p.r1},{p.d2},{p.r2},{p.t}"))
-      | ["setviews", v] => (some { gg with viewMash := (gg.N.tdiv 2).tdiv (I v) }, "ok")
-      | ["wf"] => (g, if gg.WFb then "1" else "0")
+        (st, s!"{gg.numDetPairsForBin b} | " ++ " ".intercalate (l.map fun p => s!"{p.d1},{p.r1},{p.d2},{p.r2},{p.t}"))
+      | ["pairs0", s, v, a, tp, t] =>
+        let b : Bin := ⟨I s, I v, I a, I tp, I t⟩
+        let l := (gg.spatialDetPairsForBin b).toArray.qsort (fun x y => lexLt (dpKey x) (dpKey y)) |>.toList
+        (st, s!"{gg.numSpatialDetPairsForBin b} | " ++ " ".intercalate (l.map fun p => s!"{p.d1},{p.r1},{p.d2},{p.r2},{p.t}"))
+      | ["wf"] => (st, if gg.WFb then "1" else "0")
+      | ["wfh"] => (st, if gg.WFp then "1" else "0")
       | ["b2d", s, v, a, tp, t] =>
         match gg.detPairForBin ⟨I s, I v, I a, I tp, I t⟩ with
-        | some p => (g, s!"{p.d1} {p.r1} {p.d2} {p.r2} {p.t}")
-        | none => (g, "none")
-      | _ => (g, "bad-op")
+        | some p => (st, s!"{p.d1} {p.r1} {p.d2} {p.r2} {p.t}")
+        | none => (st, "none")
+      | ["inr", s, v, a, tp, t] => (st, if cs.inRange ⟨I s, I v, I a, I tp, I t⟩ then "1" else "0")
+      -- sampling changed after construction
+      | ["setviews", v] => upd { cs with viewMash := (cs.N.tdiv 2).tdiv (I v) }
+      | ["redseg", lo, hi] => upd (cs.reduceSegmentRange (I lo) (I hi))
+      | ["setminrd", s, v] => upd (cs.setMinRD (I s) (I v))
+      | ["setmaxrd", s, v] => upd (cs.setMaxRD (I s) (I v))
+      | ["setminax", s, v] => upd (cs.setMinAx (I s) (I v))
+      | ["setmaxax", s, v] => upd (cs.setMaxAx (I s) (I v))
+      | ["ntang", n] => let c := cs.setNumTang (I n); (some c, fmtTang c)
+      | ["setmintang", v] => let c := { cs with minTang := I v }; (some c, fmtTang c)
+      | ["setmaxtang", v] => let c := { cs with maxTang := I v }; (some c, fmtTang c)
+      | ["state"] =>
+        (st, s!"{cs.minSeg} : " ++ " ".intercalate (cs.segs.map fun s => s!"{s.minRD},{s.maxRD},{s.minAx},{s.maxAx}")
+          ++ s!" | tang {cs.minTang} {cs.maxTang} | mash {cs.viewMash}")
+      | ["init"] => (st, if cs.initErr then "err" else "ok")
+      | _ => (st, "bad-op")
 
-partial def loop (h : IO.FS.Stream) (g : Option Geom) : IO Unit := do
+/-- `save` remembers the current sampling (the harness clones the object and changes the clone), `restore` returns to it -/
+partial def loop (h : IO.FS.Stream) (g saved : Option CylState) : IO Unit := do
   let line ← h.getLine
   if line.isEmpty then return ()
-  let (g', out) := stepLine g line
-  IO.println out
-  loop h g'
+  match line.trimAscii.toString with
+  | "save" => IO.println "ok"; loop h g g
+  | "restore" => IO.println "ok"; loop h saved saved
+  | _ =>
+    let (g', out) := stepLine g line
+    IO.println out
+    loop h g' saved
 
-def main : IO Unit := do loop (← IO.getStdin) none
+def main : IO Unit := do loop (← IO.getStdin) none none
 end Driver.C01
